@@ -223,7 +223,10 @@ def child(w: int, sc: dict[str, Any], base: str) -> None:
             entered = True
             fake = snowflake.connector.connect
             check("inside:std-connect-is-fake", isinstance(fake, mock.MagicMock))
-            holder["fs"] = getattr(getattr(fake, "side_effect", None), "__self__", None)
+            try:
+                holder["fs"] = core.find_instance()
+            except BaseException:  # noqa: BLE001
+                holder["fs"] = None
             check("inside:std-write_pandas-is-fake", isinstance(snowflake.connector.pandas_tools.write_pandas, mock.MagicMock))
             for t in eager:
                 cur = getattr(sys.modules[t.rsplit(".", 1)[0]], t.rsplit(".", 1)[1])
